@@ -255,6 +255,13 @@ async fn run_history(name: &str, cfg: HistoryCfg, blocks: usize, with_nft: bool,
             let mut probes: Vec<OutRef> = due.iter().filter(|o| o.slip_type != TYPE_BOUND && h.b.actors.iter().any(|a| a.pk == o.owner)).take(3).cloned().collect();
             // something older still unspent in the reference ledger of the parent
             probes.extend(ledger.utxo.values().filter(|o| o.block_id < m && o.slip_type != TYPE_BOUND && h.b.actors.iter().any(|a| a.pk == o.owner)).take(2).cloned());
+            // ... and the outputs of the very next block to expire (created in block n - gp): the
+            // rebroadcast section of block n + 1 handles them, so a transaction in block n + 1 can
+            // no longer spend them either
+            let after = h.b.store.ledger(&step.hash);
+            let edge: Vec<OutRef> = after.utxo.values().filter(|o| o.block_id + gp == n && o.slip_type != TYPE_BOUND && o.amount > 0 && h.b.actors.iter().any(|a| a.pk == o.owner)).take(3).cloned().collect();
+            rep.add("expired_spend_probes_at_window_edge", edge.len() as u64);
+            probes.extend(edge);
             for o in probes {
                 let owner = h.b.actors.iter().find(|a| a.pk == o.owner).unwrap().clone();
                 let tx = build_tx(&owner, &[o.clone()], &[(owner.pk, o.amount.saturating_sub(1))], blk.timestamp + 5, &[]);
